@@ -4,6 +4,10 @@ tree itself changes (a `fix:` commit); the list is what sa/inline.py compares la
 import os, sys
 sys.path.insert(0, os.path.dirname(os.path.dirname(os.path.abspath(__file__))))
 from sa import facts, inline
-raw = facts.load_raw(facts.extract("default"))
-inline.write_known(raw)
-print(len(inline.fn_index(raw)), "functions")
+idx = {}
+for cfg in facts.CONFIGS:  # the union over every analysed configuration: a cfg-only function is known, not a new helper
+    raw = facts.load_raw(facts.extract(cfg))
+    for k, v in inline.fn_index(raw).items():
+        idx.setdefault(k, v)
+inline.write_known(None, index=idx)
+print(len(idx), "functions")
